@@ -399,7 +399,7 @@ PROPS = {
                 'correspondence mode x overload x preconditioning scale; each result against Horn quaternion / closed-form '
                 'reference in long double. non-trivial = coplanar set, perturbed data, non-identity correspondences or a '
                 'non-default overload.',
-        'assumptions': ['rotation accuracy bound 16 eps n Ms Mt/(s_{d-1}+s_d) from the perturbation theory of the orthogonal Procrustes problem; cases where it exceeds 1e-9 (float 1e-4) are not resolvable in that scalar type and are counted in trivial_skipped',
+        'assumptions': ['rotation accuracy bound 64 eps n Ms Mt/(s_{d-1}+s_d) from the perturbation theory of the orthogonal Procrustes problem; cases where a quarter of it exceeds 1e-9 (float 1e-4) are not resolvable in that scalar type and are counted in trivial_skipped',
                         'preconditioning means the same isotropic scale on both sets without translation (the only form under which the library formula is an identity)'],
         'tiers': {'quick': {'deadline': 400, 'case_timeout': 200}, 'thorough': {'deadline': 3000, 'case_timeout': 900}},
         'technique': 'bounded-exhaustive input/configuration lattice on the real estimator, independent reference solution (Horn) in long double',
